@@ -34,10 +34,10 @@ def NonReset : Op → Prop
   | .reset | .sig _ => False
   | _ => True
 
-/-- One step: once latched, no packet of any kind from any address, no selected-pair update and
+/-- (helper, not counted) One step: once latched, no packet of any kind from any address, no selected-pair update and
 no other API call except the two signaling resets changes the RTP destination or clears the latch —
 whatever the destination is (unset, port 0) and whatever the socket kind. -/
-theorem latched_sticky_step (s : St) (op : Op) (hon : s.latchOn = true)
+private theorem latched_sticky_step (s : St) (op : Op) (hon : s.latchOn = true)
     (hl : s.rtpLatched = true) (hop : NonReset op) :
     (step s op).remote = s.remote ∧ (step s op).rtpLatched = true ∧ (step s op).latchOn = true := by
   cases op with
@@ -129,36 +129,25 @@ theorem rtcp_learnt_sticky (s : St) (ops : List Op) (hl : s.rtcpLatched = true)
 
 /-! ### Commit -/
 
-/-- **commit_is_rule_winner**: when a probation packet makes the rules pick `w`, the committed
-destination is exactly `w`, whatever the destination was before the packet
-(false before round 1's `fix:` commit be978e0 — see `known_findings.json`). -/
-theorem commit_is_rule_winner (s : St) (a : Addr) (ssrc seq ts : Nat) (m : Bool) (p : Prob) (w : Addr)
-    (hon : s.latchOn = true) (hl : s.rtpLatched = false) (hp : s.prob = some p)
-    (hleg : s.expected = 0 ∨ ssrc = s.expected)
-    (hw : winner { p with total := satInc totalMax p.total, cands := observe p.cands a seq ts m } = some w) :
-    (receive s a (.rtp ssrc seq ts m)).remote = w ∧
-    (receive s a (.rtp ssrc seq ts m)).rtpLatched = true ∧
-    (receive s a (.rtp ssrc seq ts m)).prob = none :=
-  commit_step s a ssrc seq ts m p w hon hl hp hleg hw
-
-/-- no rule fires ⇒ the packet is only recorded, the latch stays open and the destination follows
-the source of this (expected-SSRC) packet -/
-theorem no_winner_keeps_probation (s : St) (a : Addr) (ssrc seq ts : Nat) (m : Bool) (p : Prob)
-    (hon : s.latchOn = true) (hl : s.rtpLatched = false) (hp : s.prob = some p)
-    (hleg : s.expected = 0 ∨ ssrc = s.expected)
-    (hw : winner { p with total := satInc totalMax p.total, cands := observe p.cands a seq ts m } = none) :
-    (receive s a (.rtp ssrc seq ts m)).rtpLatched = false ∧
-    (receive s a (.rtp ssrc seq ts m)).remote = a ∧
-    (receive s a (.rtp ssrc seq ts m)).prob =
-      some { p with total := satInc totalMax p.total, cands := observe p.cands a seq ts m } :=
-  no_winner_step s a ssrc seq ts m p hon hl hp hleg hw
-
-/-- without probation (`max = 0`) the first legitimate packet commits to its source -/
-theorem immediate_latch (s : St) (a : Addr) (ssrc seq ts : Nat) (m : Bool)
-    (hon : s.latchOn = true) (hl : s.rtpLatched = false) (hp : s.prob = none)
-    (hleg : s.expected = 0 ∨ ssrc = s.expected) :
-    (receive s a (.rtp ssrc seq ts m)).rtpLatched = true ∧ (receive s a (.rtp ssrc seq ts m)).remote = a :=
-  immediate_step s a ssrc seq ts m hon hl hp hleg
+/-- **commit_is_rule_winner**: what one expected-SSRC RTP packet does while the latch is open.
+With a probation window: if the rules pick `w` on the updated table the destination becomes exactly
+`w` — whatever it was before the packet —, the latch is set and the table dropped (false before round
+1's `fix:` be978e0); if no rule fires the packet is only recorded, the latch stays open and the
+destination follows this packet's source. Without a window (`max = 0`) the packet commits to its
+own source at once. -/
+theorem commit_is_rule_winner (s : St) (a : Addr) (ssrc seq ts : Nat) (m : Bool)
+    (hon : s.latchOn = true) (hl : s.rtpLatched = false) (hleg : s.expected = 0 ∨ ssrc = s.expected) :
+    let s' := receive s a (.rtp ssrc seq ts m)
+    (∀ p, s.prob = some p →
+      let p1 : Prob := { p with total := satInc totalMax p.total, cands := observe p.cands a seq ts m }
+      (∀ w, winner p1 = some w → s'.remote = w ∧ s'.rtpLatched = true ∧ s'.prob = none) ∧
+      (winner p1 = none → s'.remote = a ∧ s'.rtpLatched = false ∧ s'.prob = some p1)) ∧
+    (s.prob = none → s'.remote = a ∧ s'.rtpLatched = true) := by
+  refine ⟨fun p hp => ⟨fun w hw => commit_step s a ssrc seq ts m p w hon hl hp hleg hw, fun hw => ?_⟩, fun hp => ?_⟩
+  · have h := no_winner_step s a ssrc seq ts m p hon hl hp hleg hw
+    exact ⟨h.2.1, h.1, h.2.2⟩
+  · have h := immediate_step s a ssrc seq ts m hon hl hp hleg
+    exact ⟨h.2, h.1⟩
 
 /-! ### The documented rules, in the documented order
 
@@ -409,7 +398,7 @@ def AllStepsOk (s : St) (win : List Addr) : List Op → Prop
   | [] => True
   | o :: os => StepOk s win o ∧ AllStepsOk (step s o) (winStep s win o) os
 
-theorem move_step (s : St) (win : List Addr) (o : Op) (hi : Inv s win) :
+private theorem move_step (s : St) (win : List Addr) (o : Op) (hi : Inv s win) :
     StepOk s win o ∧ Inv (step s o) (winStep s win o) := by
   obtain ⟨hon, hc⟩ := hi
   have hmono : ∀ l, ∀ p, s.prob = some p → ∀ c ∈ p.cands, c.addr ∈ win ++ l :=
@@ -425,13 +414,13 @@ theorem move_step (s : St) (win : List Addr) (o : Op) (hi : Inv s win) :
       by_cases hl : s.rtpLatched = false
       · cases hpr : s.prob with
         | none =>
-          have h := immediate_latch s a ssrc seq ts m hon hl hpr hk
+          have h := immediate_step s a ssrc seq ts m hon hl hpr hk
           refine ⟨Or.inr ⟨by simp [Legit, hk], hl, Or.inl (by simp [step, h.2])⟩, by simp [step, receive, hon], ?_⟩
           intro p' hp'; simp [step, receive, rtpLatch, had, hon, hl, hpr, hk] at hp'
         | some p =>
           cases hwn : winner { p with total := satInc totalMax p.total, cands := observe p.cands a seq ts m } with
           | some w =>
-            have h := commit_is_rule_winner s a ssrc seq ts m p w hon hl hpr hk hwn
+            have h := commit_step s a ssrc seq ts m p w hon hl hpr hk hwn
             obtain ⟨c, hcm, hca⟩ := winner_mem _ _ hwn
             have hw : w = a ∨ w ∈ win := by
               rcases observe_addr_mem _ _ _ _ _ _ hcm with h' | ⟨c', hc', he⟩
@@ -440,7 +429,7 @@ theorem move_step (s : St) (win : List Addr) (o : Op) (hi : Inv s win) :
             refine ⟨Or.inr ⟨by simp [Legit, hk], hl, by simpa [step, h.1] using hw⟩, by simp [step, receive, hon], ?_⟩
             intro p' hp'; simp [step, h.2.2] at hp'
           | none =>
-            have h := no_winner_keeps_probation s a ssrc seq ts m p hon hl hpr hk hwn
+            have h := no_winner_step s a ssrc seq ts m p hon hl hpr hk hwn
             refine ⟨Or.inr ⟨by simp [Legit, hk], hl, Or.inl (by simp [step, h.2.1])⟩, by simp [step, receive, hon], ?_⟩
             intro p' hp' c hcm
             simp only [step, h.2.2, Option.some.injEq] at hp'
